@@ -25,6 +25,7 @@ type normOpts struct {
 	Pol     int    `json:"pol"`
 	MaxIdx  int64  `json:"maxidx,omitempty"` // 0: the default
 	Escape  bool   `json:"escape,omitempty"`
+	Tag     string `json:"tag,omitempty"` // StructTag name ("" = the default, config)
 }
 
 func (o normOpts) opts() []ucfg.Option {
@@ -46,6 +47,9 @@ func (o normOpts) opts() []ucfg.Option {
 	}
 	if o.Escape {
 		out = append(out, ucfg.EscapePath())
+	}
+	if o.Tag != "" {
+		out = append(out, ucfg.StructTag(o.Tag))
 	}
 	return out
 }
@@ -85,7 +89,23 @@ func newFromObs(from interface{}, o normOpts) (string, string, *ucfg.Config) {
 	return "(OV " + coqValue(n) + ")", descValue(n), c
 }
 
+type c05Dual struct {
+	Host string `config:"host" alt:"name"`
+	Port int    `config:"port" alt:"host"`
+	In   struct {
+		A int `config:"a" alt:"b"`
+		B int `config:"b" alt:"a,ignore"`
+	} `config:"in" alt:"out"`
+	L []struct {
+		X string `config:"x" alt:"y"`
+	} `config:"l" alt:"l"`
+}
+
 func c05Norm(from interface{}, o normOpts, desc string, tags ...string) Case {
+	if o.Tag != "" {
+		gvalStructTag = o.Tag
+		defer func() { gvalStructTag = "config" }()
+	}
 	g := coqGval(from, "")
 	obs, d := normObs(from, o)
 	return Case{Coq: fmt.Sprintf("CNorm %s %s %s", o.coq(), g, obs),
@@ -399,6 +419,22 @@ func genC05(g *Gen, c09 bool) {
 			g.Add(Case{Coq: fmt.Sprintf("CSame %s %s %s", coqStr("policy-independent"), c0, cp),
 				Desc: map[string]interface{}{"kind": "same", "what": "one input normalized under the default policy and under " + policyOpts[pol].name, "input": fmt.Sprintf("%v", m), "default": d0, policyOpts[pol].name: dp},
 				Tags: []string{"same:policy"}, Nontrivial: true})
+		}
+	}
+	// one struct type that names its fields differently under two struct tag names, normalized under
+	// either name in one process
+	for i := 0; i < 4; i++ {
+		v := c05Dual{Host: "h", Port: 8000 + i}
+		v.In.A, v.In.B = 1, 2
+		v.L = append(v.L, struct {
+			X string `config:"x" alt:"y"`
+		}{"e"})
+		for _, tg := range []string{"", "alt", "", "alt"}[i%2:] {
+			var in interface{} = v
+			if i >= 2 {
+				in = map[string]interface{}{"wrapped": &v, "n": i}
+			}
+			g.Add(c05Norm(in, normOpts{Sep: ".", Tag: tg}, fmt.Sprintf("%+v under tag %q", v, tg), "struct-tag:"+tg))
 		}
 	}
 	// one existing Config at two places of an input that extends one of them by another spelling,
@@ -732,6 +768,9 @@ func genC05(g *Gen, c09 bool) {
 	}
 	// (5) unsupported kinds and odd top levels
 	odd := []interface{}{
+		map[string]interface{}{"hosts": map[string]interface{}{"0": map[string]interface{}{"name": "a"}, "00": map[string]interface{}{"port": 1}}},
+		map[string]interface{}{"0": 5, "00": nil}, map[string]interface{}{"1": "x", "01": "y"}, map[string]interface{}{"1": "x", "0x1": "y"},
+		map[string]interface{}{"l": map[string]interface{}{"2": []interface{}{1}, "0b10": []interface{}{nil, 2}}},
 		map[string]interface{}{"a": complex(1, 2)}, map[string]interface{}{"a": uintptr(5)},
 		map[string]interface{}{"a": make(chan int)}, map[string]interface{}{"a": func() {}},
 		map[string]interface{}{"a": (chan int)(nil)}, map[string]interface{}{"a": (func())(nil)},
